@@ -72,6 +72,8 @@ def run(repo, chk):
     chk.rule("R2", "conversion points: BufferReadError->FRAME_ENCODING_ERROR around the frame-type pull and the handler call; QuicConnectionError->close() in receive_datagram; tls.Alert->CRYPTO_ERROR in _handle_crypto_frame; BufferReadError->AlertDecodeError in handle_message; header parsing under except ValueError")
     chk.rule("R2b", "facts behind the call-site refinements: _connect calls handle_message on a freshly created client Context; crypto streams are never reset/finished")
     chk.rule("R3", "every frame type of RFC 9000 section 19 / RFC 9221 is registered; a handler that indexes _spaces/_crypto_streams/_crypto_buffers with context.epoch is not registered for the 0-RTT epoch; get_epoch's range is covered by _cryptos")
+    chk.rule("R4b", "packet builder: start_packet reserves header + minimum payload + AEAD tag (linear entailment from the fall-through of its space test), remaining_buffer_space reserves the tag, start_frame refuses frames beyond it - so _end_packet's padding and in-place encryption fit the datagram buffer")
+    chk.rule("R5", "a third-party call whose argument count is chosen by peer data (public_key.verify(*params)) is dominated by a key-type/algorithm agreement test")
     chk.rule("R4", "for every frame writer the bytes pushed after start_frame(capacity=C) are bounded by C symbolically; QuicPacketBuilderStop raised on the path is caught")
     chk.decline("TypeError/AttributeError from ill-typed values other than Optional message fields, MemoryError, RecursionError, exceptions raised by application callbacks")
     chk.assume("the API is used as documented: a client calls connect() once before anything else, a server connection receives its first datagram through receive_datagram, no calls after termination")
@@ -88,6 +90,115 @@ def run(repo, chk):
     _r2b(repo, chk, prog)
     _r3(repo, chk, prog)
     _r4(repo, chk, prog)
+    _r4b(repo, chk)
+    _r5(repo, chk)
+
+
+# ---- R4b: the packet builder's own pushes fit ------------------------------------------------
+
+
+def _r4b(repo, chk):
+    """start_packet must refuse a packet unless header + smallest payload (the sample-size padding
+    _end_packet may add) + AEAD tag fit; otherwise _end_packet's padding/encryption overflow the
+    datagram buffer (BufferWriteError out of datagrams_to_send)."""
+    from sa.linear import Store
+
+    PB = "quic.packet_builder:QuicPacketBuilder."
+    sp = Fn(repo, PB + "start_packet")
+    ep = Fn(repo, PB + "_end_packet")
+    # padding formula of _end_packet: padding_size = K + header_size - packet_size
+    pads = [v for st, t, v in ep.assigns(chain="padding_size")]
+    K = None
+    for v in pads:
+        l = _lin_expr(repo, ep, v)
+        rest = l - Lin.sym("self._header_size") + Lin.sym("packet_size")
+        if rest.is_const():
+            K = rest.const
+    chk.ob("R4b", "_end_packet pads the payload up to a constant minimum (header-protection sample)", K is not None and K >= 0, f"padding_size definitions {[norm(v) for v in pads]}", ep.loc(ep.node))
+    if K is None:
+        return
+    # the Stop test of start_packet: fall-through must entail  packet_start + header_size + K + tag <= capacity
+    stops = [r for r in sp.raises("QuicPacketBuilderStop")]
+    tag_syms = ("crypto.aead_tag_size", "self._packet_crypto.aead_tag_size")
+    ok = False
+    detail = []
+    for r in stops:
+        holder = r._parent
+        if not isinstance(holder, ast.If) or holder.orelse:
+            continue
+        t = holder.test
+        if not (isinstance(t, ast.Compare) and len(t.ops) == 1):
+            continue
+        l, rr = _lin_expr(repo, sp, t.left), _lin_expr(repo, sp, t.comparators[0])
+        st = Store()
+        op = t.ops[0]
+        # fall-through = negation of the test
+        if isinstance(op, ast.Gt):
+            st.add_le(l, rr)
+        elif isinstance(op, ast.GtE):
+            st.add_lt(l, rr)
+        elif isinstance(op, ast.Lt):
+            st.add_le(rr, l)
+        elif isinstance(op, ast.LtE):
+            st.add_lt(rr, l)
+        else:
+            continue
+        if "header_size" not in norm(t):
+            continue
+        for tag in tag_syms:
+            need_l = Lin.sym("packet_start") + Lin.sym("header_size") + Lin.c(K) + Lin.sym(tag)
+            if st.entails_le(need_l, Lin.sym("self._buffer_capacity")):
+                ok = True
+        detail.append(norm(t))
+        # the test must be unconditional in the function body and precede the packet's creation
+        news = sp.calls(name="QuicSentPacket")
+        ok = ok and not sp.lexical_guards(holder, expand=False) and all(sp.before(holder, n) for n in news)
+    chk.ob("R4b", f"start_packet raises QuicPacketBuilderStop unless packet_start + header_size + {K} + aead_tag_size <= capacity", ok, f"the space test(s) {detail} do not reserve the minimum payload and the AEAD tag: a frame that fits leaves no room for the padding byte and encryption overflows the buffer", sp.loc(sp.node))
+    # frames are only accepted when they fit before the tag reserve
+    sf = Fn(repo, PB + "start_frame")
+    rb = Fn(repo, PB + "remaining_buffer_space")
+    rets = [r for r in rb.returns() if r.value is not None]
+    good = False
+    for r in rets:
+        l = _lin_expr(repo, rb, r.value)
+        want = Lin.sym("self._buffer_capacity") - Lin.sym("self._buffer.tell()") - Lin.sym("self._packet_crypto.aead_tag_size")
+        d = l - want
+        good = good or (d.is_const() and d.const <= 0)
+    chk.ob("R4b", "remaining_buffer_space reserves the AEAD tag", good, f"returns {[norm(r.value) for r in rets]}", rb.loc(rb.node))
+    st_ok = any(Fn.find_guards(sf.guard_atoms(r), ">", True, ["capacity", "self.remaining_buffer_space"]) or any("self.remaining_buffer_space" in a[0] and "capacity" in a[0] for a in sf.guard_atoms(r)) for r in sf.raises("QuicPacketBuilderStop"))
+    chk.ob("R4b", "start_frame refuses a frame whose declared capacity exceeds remaining_buffer_space", st_ok, "", sf.loc(sf.node))
+
+
+# ---- R5: third-party calls whose *arity* depends on peer data ---------------------------------
+
+
+def _r5(repo, chk):
+    """public_key.verify(sig, data, *params): the parameter tuple is chosen from the peer's
+    CertificateVerify.algorithm while the key comes from the peer's certificate; a mismatch is a
+    TypeError (wrong number of arguments) that no alert conversion catches.  Every such call must be
+    dominated by a key-type / algorithm agreement test whose failure raises an alert."""
+    m = repo.mod("tls")
+    n = 0
+    for q in sorted(m.functions):
+        fn = Fn(repo, "tls:" + q)
+        for c in fn.calls(suffix="verify"):
+            if not any(isinstance(a, ast.Starred) for a in c.args):
+                continue
+            n += 1
+            star = next(a for a in c.args if isinstance(a, ast.Starred))
+            atoms = fn.guard_atoms_x(c) + fn.guard_atoms(c)
+            ok = any(a[1] and "signature_algorithm_matches_key(" in a[0] for a in atoms)
+            chk.ob("R5", f"{q}: `{norm(c.func)}(..., {norm(star)})` is dominated by a successful key-type/algorithm agreement test", ok, "the star-argument tuple depends on the peer's algorithm, the key on the peer's certificate: a mismatch raises TypeError out of handle_message / receive_datagram", fn.loc(c))
+    if repo.has_func("tls:signature_algorithm_matches_key"):
+        h = Fn(repo, "tls:signature_algorithm_matches_key")
+        rets = [r for r in h.returns() if r.value is not None]
+        ok = bool(rets) and all(isinstance(r.value, ast.Call) and call_name(r.value) == "isinstance" for r in rets)
+        chk.ob("R5", "signature_algorithm_matches_key decides by the key's class on every path", ok and h.cfg.reachable(h.cfg.exit) is not None, f"returns {[norm(r.value)[:50] for r in rets]}", h.loc(h.node))
+        # every algorithm family of signature_algorithm_params has a branch: ED25519, ED448, ECDSA (padding None), RSA
+        txt = " ".join(norm(r.value) for r in rets)
+        fam = all(k in txt for k in ("Ed25519PublicKey", "Ed448PublicKey", "EllipticCurvePublicKey", "RSAPublicKey"))
+        chk.ob("R5", "signature_algorithm_matches_key covers Ed25519, Ed448, ECDSA and RSA", fam, f"classes tested: {txt[:160]}", h.loc(h.node))
+    chk.count("verify_calls_with_peer_chosen_arity", n)
 
 
 # ---- R2 -------------------------------------------------------------------------------------
